@@ -35,7 +35,8 @@ func (p uriParts) String() string { return p.Scheme + ":" + p.Host + p.Port + p.
 var (
 	c17Schemes = []string{"stun", "stuns", "turn", "turns", "http", "stunx", "STUN", "Turns"}
 	c17Hosts   = []string{"example.org", "a", "a.b-c.d", "1.2.3.4", "[::1]", "[fe80::1%25eth0]", "[2001:db8::ff]", "", "[h]", "xn--bcher-kva.example",
-		"[2001:DB8::1]", "[0:0:0:0:0:0:0:1]", "[::ffff:192.0.2.1]", "[2001:0db8::0001]", "EXAMPLE.org", "010.1.2.3"}
+		"[2001:DB8::1]", "[0:0:0:0:0:0:0:1]", "[::ffff:192.0.2.1]", "[2001:0db8::0001]", "EXAMPLE.org", "010.1.2.3",
+		"[fe80::1%2511]", "[fe80::1%11]", "[fe80::1%25]", "[fe80::1%2525x]", "[fe80::1%41]", "[fe80::1%en0]"}
 	c17Ports   = []string{"", ":", ":0", ":1", ":3478", ":5349", ":65535", ":65536", ":99999", ":-1", ":+5", ":12a", ":99999999999999999999", ":0080", ":0100", ":09", ":4294967297", ":0x50", ":3_478", ":0b11", ":0o17", ":1e3", ": 80"}
 	c17Queries = []string{"", "?", "?transport=udp", "?transport=tcp", "?transport=UDP", "?transport=sctp", "?transport=", "?transport=udp&x=1", "?x=1", "?transport=udp&transport=tcp", "?transport=tcp&transport=udp", "?transport", "?Transport=udp", "?transport=udp&", "?x=1&y=2",
 		"?%zz", "?transport=tcp;x=1", "?transport=tcp&%zz=1", "?foo=1;bar=2", "?transport=udp%", "?%"}
@@ -187,6 +188,22 @@ func uriSoundK(s string, u *stun.URI) (string, string) {
 	}
 	if *u2 != *u {
 		return "roundtrip/differs/" + hostClass(u.Host), fmt.Sprintf("round trip of %q: %+v -> %q -> %+v", s, *u, str, *u2)
+	}
+	// the result is a function of the text: what a caller does to an earlier result does not show in a later one
+	orig := *u
+	u.Username, u.Password, u.Host, u.Port = "edited", "edited", "edited.invalid", u.Port^1
+	if u.Proto == stun.ProtoTypeUDP {
+		u.Proto = stun.ProtoTypeTCP
+	} else {
+		u.Proto = stun.ProtoTypeUDP
+	}
+	var u3 *stun.URI
+	if p := catch(func() { u3, err = stun.ParseURI(s) }); p != "" {
+		return "reparse/panic", fmt.Sprintf("second ParseURI(%q) %s", s, p)
+	}
+	*u = orig
+	if err != nil || u3 == nil || *u3 != orig {
+		return "result-depends-on-earlier-calls", fmt.Sprintf("ParseURI(%q) gave %+v; after the caller edited that value, the same text parses as %+v (err %v)", s, orig, u3, err)
 	}
 	return "", ""
 }
